@@ -351,6 +351,40 @@ func pathOrders(r *mon.Run, w *world, origPath string, ui *plugin.ClientUI, file
 		{"relative-first", "../cwd:" + w.dB, "NOT-CWD"},
 		{"no-match", onlyB, "NONE"},
 	}
+	// first matches that the search selects but that cannot be started, or
+	// that the search skips: what starts is decided by the PATH search alone
+	mkdir := func(name string) string {
+		d := filepath.Join(w.root, name)
+		os.MkdirAll(d, 0o755)
+		return d
+	}
+	garbage := mkdir("garbage") // regular file with execute bits the kernel refuses (ENOEXEC)
+	os.WriteFile(filepath.Join(garbage, "age-plugin-zz"), []byte("\x7fNOT-AN-ELF and no interpreter line\n"), 0o755)
+	noShebang := mkdir("noshebang") // a shell script without #!: execve says ENOEXEC, shells would run it
+	os.WriteFile(filepath.Join(noShebang, "age-plugin-zz"), []byte("printf 'ESCAPED-NOSHEBANG\\n' >> "+shellQuote(w.log)+"\n"), 0o755)
+	emptyFile := mkdir("emptyfile")
+	os.WriteFile(filepath.Join(emptyFile, "age-plugin-zz"), nil, 0o755)
+	badInterp := mkdir("badinterp") // #! line naming a program that does not exist (ENOENT from execve)
+	os.WriteFile(filepath.Join(badInterp, "age-plugin-zz"), []byte("#!/nonexistent/interpreter\n"), 0o755)
+	notExec := mkdir("notexec") // no execute bits: the search skips it
+	os.WriteFile(filepath.Join(notExec, "age-plugin-zz"), []byte("#!/bin/sh\nexit 1\n"), 0o644)
+	isDir := mkdir("isdir") // a directory of that name: the search skips it
+	os.MkdirAll(filepath.Join(isDir, "age-plugin-zz"), 0o755)
+	dangling := mkdir("dangling")
+	os.Symlink(filepath.Join(w.root, "nowhere"), filepath.Join(dangling, "age-plugin-zz"))
+	linked := mkdir("linked") // a symbolic link to the program in B: started under the link's own path
+	os.Symlink(b, filepath.Join(linked, "age-plugin-zz"))
+	orders = append(orders,
+		po{"garbage-binary-first,A", garbage + ":" + w.dA, "NONE"},
+		po{"script-without-interpreter-line-first,A", noShebang + ":" + w.dA, "NONE"},
+		po{"empty-file-first,B,A", emptyFile + ":" + w.dB + ":" + w.dA, "NONE"},
+		po{"missing-interpreter-first,A", badInterp + ":" + w.dA, "NONE"},
+		po{"not-executable-first,A", notExec + ":" + w.dA, a},
+		po{"directory-first,B", isDir + ":" + w.dB, b},
+		po{"dangling-symlink-first,A", dangling + ":" + w.dA, a},
+		// (the sentinel logs the path it was created under, so the link shows up as B's program)
+		po{"symlink-to-B-first,A", linked + ":" + w.dA, b},
+	)
 	for _, o := range orders {
 		os.Setenv("PATH", o.path+":"+origPath)
 		w.clear()
